@@ -40,7 +40,7 @@ pub const VOCAB: &[&str] = &[
     "offsetof", "timeof", "sin", "cos", "sqrt", "_S", "_f", "$", "%", "::", ":", ";", ",", ".", "(", ")", "{", "}", "[", "]", "+", "-", "*", "/", "^", "|", "&", "<<", ">>", ">>>", "==", "!=", "<", "<=", ">", ">=",
     "&&", "||", "!", "~", "=", "+=", "-=", "*=", "/=", "%=", "|=", "^=", "&=", "<<=", ">>=", ">>>=", "++", "--", "?", "@mask=", "@blob=", "@arg0=", "@pop=", "@nargs=", "@", "async", "#pragma", "mapfile", "image_source",
     "+10:", "-5:", "10:", "{\"EN\"}:", "{\"*-0\"}:", "INF", "NAN", "PI", "true", "false", "REG[10000]", "$REG[1]", "%REG[2]", "ins_23", "ins_0", "ins_65535", "ins_65536", "ins_-1", "REG[-10001]", "REG[99999999999]",
-    "0", "1", "-1", "2147483647", "2147483648", "4294967295", "4294967296", "99999999999999999999", "-2147483648", "0x", "0xffffffff", "0x100000000", "0b", "0b2", "1e999", "1e-999", "1.0e", ".5", "5.", "1.0f", "1f", "1.5.5", "0.0", "-0.0", "rad(1.0)",
+    "0", "1", "-1", "2147483647", "2147483648", "4294967295", "4294967296", "99999999999999999999", "-2147483648", "0x", "0xffffffff", "0x100000000", "0b", "0b2", "1e999", "1e-999", "1.0e", ".5", "5.", "1.0f", "1f", "1.5.5", "0.0", "-0.0", "rad(1.0)", "rad(1.5.5)", "rad(1.f)", "rad(-1.0)", "rad(+1.5f)", "rad(1..5)", "rad(1f)", "rad()", "rad(1.5.f)", "1.5.f", "1.f",
     "\"\"", "\"a\"", "\"\\\"", "\"unterminated", "\"\\x\"", "\"\\0\"", "\"日本\"", "\"😀\"", "'a'", "`", "\\", "#", "//", "/*", "*/", "\u{feff}", "\r\n", "\0", "\u{7f}", "é", "ｶ",
     "script0", "sprite0", "main", "Sub0", "timeline0", "default", "table", "path", "has_data", "sprites", "x", "i", "I0", "F0", "anim", "objects", "instances",
 ];
@@ -53,7 +53,7 @@ pub const OPS: &[&str] = &["+", "-", "*", "/", "%", "==", "!=", "<", "<=", ">", 
 /// Whole statements / items inserted at a statement boundary (after a `;`, `{` or `}`): constructs that are valid somewhere but
 /// usually not where they land, so that resolution, type checking and lowering see them in every kind of script.
 pub const STMTS: &[&str] = &[
-    "Sub0();", "Sub1(1, 2.0, 3.0);", "Sub0(1);", "int r = Sub0();", "@Sub0();", "Sub0() async;", "timeline0();", "script0();", "main();",
+    "Sub0();", "Sub1(1, 2.0, 3.0);", "Sub0(1);", "Sub0(!$REG[-10001]);", "Sub1(!$REG[-10001]);", "Sub2(-$REG[-10002]);", "Sub0(!$REG[-10001], 1.0);", "Sub1($REG[-10001] * 2, 1.0);", "Sub0(%REG[-10005] + 1.0);", "Sub1(%REG[-10005] * 2.0);", "Sub0(1, %REG[-10005] + 1.0);", "Sub1(1, -%REG[-10006]);", "Sub0($REG[-10001] + 1);", "Sub0($REG[10000] * 2, %REG[10004] + 1.0);", "Sub1(x + 1);", "Sub0(1.5 * 2.0);", "Sub0(_S(%REG[-10005]));", "int r = Sub0();", "@Sub0();", "Sub0() async;", "timeline0();", "script0();", "main();",
     "void inner() { }\ninner();", "void inner(int a) { ins_1(a); }\ninner(3);", "inline void inl() { }\ninl();", "const int cf() { return 1; }\nint q = cf();", "int fwd();", "void inner2() { void inner3() { } inner3(); }",
     "return;", "return 1;", "break;", "goto nowhere;", "goto end @ 5;", "end:", "if (1) break;", "times(3) { break; }", "loop { }", "do { } while (0);",
     "int x; int x;", "int y = y;", "float z = 1;", "const int K = 1 / 0;", "const int K2 = K2;", "const int Z0 = 0;\nconst int K3 = 7 / Z0;", "const int K4 = 7 % (3 - 3);", "const int K5 = 1 / -0;", "const float KF = 1.0 / 0.0;", "const int K6 = (1 << 31) / -1;", "const int K7 = -2147483648 % -1;", "var v;", "x = 1;", "$F0 = 1;", "REG[100] = 1;", "$REG[-10001] = %REG[-10005];", "$REG[10000] = $REG[10000] + $REG[10001] * ($REG[10002] - 1);",
@@ -65,7 +65,7 @@ pub const STMTS: &[&str] = &[
 
 pub fn gen_text_mutation(t: &mut Tape) -> Value {
     let at = t.below(65536);
-    if t.chance(1, 8) { return json!({"op": "stmt_ins", "at": at, "text": *t.pick(STMTS)}); }
+    if t.chance(1, 6) { return json!({"op": "stmt_ins", "at": at, "text": *t.pick(STMTS)}); }
     if t.chance(1, 2) {
         // class-preserving replacement: the text usually still parses, so that later passes are reached
         return json!({"op": "tok_rep_same", "at": at, "num": *t.pick(NUMS), "str": *t.pick(STRS), "ident": *t.pick(IDENTS), "punct": *t.pick(OPS)});
